@@ -300,6 +300,15 @@ theorem applyEdit_local {h : Heap} {root l : Loc} (wf : WF h) (hroot : root < h.
       · simpa using this
       · intro k' c hm
         exact Or.inl ⟨k', mem_dropLast hm⟩
+  | delKey k =>
+    unfold applyEdit
+    cases ho : h[l]? with
+    | none => exact stepLocal_refl wf
+    | some o =>
+      have := stepLocal_of_write (ext := []) (o' := withSlots o (dropKey k o.slots)) wf hroot ⟨rl, ho, ?_, by simp⟩
+      · simpa using this
+      · intro k' c hm
+        exact Or.inl ⟨k', (mem_dropKey hm).1⟩
   | bindNew k kind srcs =>
     cases ho : h[l]? with
     | none => simp only [applyEdit, ho]; exact stepLocal_refl wf
